@@ -1224,10 +1224,16 @@ var opKinds = []string{
 	"rows", "scan", "pluck", "count", "row", "raw", "exec",
 }
 
-func genOp(rt *rapid.T, txNone, oneUse bool) Op {
+func genOp(rt *rapid.T, txNone, oneUse, noMigrate bool) Op {
 	kind := rapid.SampledFrom(opKinds).Draw(rt, "op")
 	if kind == "connection" && !txNone {
 		kind = "count-find" // Connection takes another pooled connection: only outside transactions
+	}
+	if kind == "migrate" && noMigrate {
+		// one schema-changing operation per case: the forms are not idempotent together (CreateTable after
+		// AutoMigrate of the same table), and under PrepareStmt a cached SELECT * keeps the column list
+		// from before an ALTER, so a second AutoMigrate would add the column again
+		kind = "count-find"
 	}
 	if kind == "rows" && oneUse {
 		kind = "scan" // Rows + ScanRows uses the handle twice
@@ -1510,7 +1516,11 @@ func genCase(rt *rapid.T) Case {
 		n = 2
 	}
 	for i := 0; i < n; i++ {
-		c.Ops = append(c.Ops, genOp(rt, c.Tx == "none", initialized))
+		migrated := false
+		for _, o := range c.Ops {
+			migrated = migrated || o.Kind == "migrate"
+		}
+		c.Ops = append(c.Ops, genOp(rt, c.Tx == "none", initialized, migrated))
 	}
 	return c
 }
